@@ -2,7 +2,7 @@
    (findings F7 and C10-SUBMS) on the faithful model with the real twap_log / exp2. *)
 From Coq Require Import ZArith List Bool Lia.
 Import ListNotations.
-From Osmo Require Import Base.DecModel Gen.C10_consts C10.Model C10.LogExp C10.Spec C10.ProofsList C10.ProofsChain C10.ProofsTwap C10.ProofsLog.
+From Osmo Require Import Base.DecModel Gen.C10_consts C10.Model C10.LogExp C10.Spec C10.ProofsList C10.ProofsChain C10.ProofsTwap C10.ProofsLog C10.ProofsAnswer.
 Open Scope Z_scope.
 
 (* ---- the full statement, and where the faithful model refutes it ----
@@ -78,3 +78,19 @@ Proof.
   rewrite Hq in Hv. discriminate Hv.
 Qed.
 
+
+(* ---- the arithmetic query is always answered (with the real twapLog) ---- *)
+Lemma twap_log_ok : forall p, 0 < p <= maxp -> exists l, twap_log p = Some l /\ - maxp <= l <= maxp.
+Proof.
+  intros p Hp.
+  assert (maxp <= 2 ^ 130 * P18) as H1 by (vm_compute; discriminate).
+  assert (1300 * P18 <= maxp) as H2 by (vm_compute; discriminate).
+  destruct (twap_log_total p ltac:(lia)) as (l & Hl & Hb). exists l. split; [assumption|]. lia.
+Qed.
+
+Lemma arith_answered_real ex t0 h0 w0 w1 evs p G now q0 start stop :
+  history twap_log t0 h0 w0 w1 evs p G -> raw_nonneg w0 -> raw_nonneg w1 -> evs_nonneg evs ->
+  r_time (p_recent p) <= now -> t0 <= start -> max_keep t0 evs <= start -> start <= stop <= now ->
+  ms start < ms stop -> ms now - ms t0 <= span_max ->
+  exists f v, twap_between twap_log ex now p q0 false start stop = QVal f v.
+Proof. apply arith_answered. exact twap_log_ok. Qed.
